@@ -1,4 +1,5 @@
 import PandoraModel.Properties.C14
+import PandoraModel.Properties.C14Kernels
 open Pandora.C14 Pandora.Interp
 -- tie to the source (tables regenerated on every run): directions, flag updates with the raising operator,
 -- constants, and the variant (guards of e1d31ca present)
@@ -34,3 +35,9 @@ open Pandora.C14 Pandora.Interp
 #print axioms sgm_occlusion_nan_counterexample
 #print axioms stale_filled_bit_add_counterexample
 #print axioms stale_filled_bit_or_ok
+-- the kernels regenerated from the Python source (Generated/KernelsInterp.lean, T14) are the hand model
+#print axioms Pandora.C14Kernels.forLoop_scanAcc
+#print axioms Pandora.C14Kernels.findValidNeighborsAt_generated_eq
+#print axioms Pandora.C14Kernels.findValidNeighbors_generated_eq_table
+#print axioms Pandora.C14Kernels.findValidNeighbors_generated_eq
+#print axioms Pandora.C14Kernels.occlusionSgm_generated_eq
